@@ -195,9 +195,12 @@ def worker(case):
                 res['nontrivial'] += 1
                 if len(res['samples']) < 1:
                     _, m = eng.feasible(True)
+                    ex = {k: str(v) for k, v in eng.model_inputs(m).items() if not k.endswith('!')}
+                    pk = [k for k in ex if k.startswith('pw_')]
+                    if pk:   # the model fixes w**sigma (the registered power), w itself is its root
+                        ex['w'] = '(%s)**(1/sigma)' % pk[0]
                     res['samples'].append(dict(grid=gridname, sigma=sigma, history=hist, leaves_after=nleaf,
-                                               example_grid={k: str(v) for k, v in eng.model_inputs(m).items()
-                                                             if not k.endswith('!')}))
+                                               example_grid=ex))
             for sig, what, model in cands:
                 acts = (list(hist_len) if isinstance(hist_len, (tuple, list)) else
                         choices_to_actions(M, gridname, pr.choices, hist_len))
